@@ -28,7 +28,7 @@ SPEC = Spec(
     title="A directory's identifier is a canonical, deterministic function of its contents",
     harnesses=[
         H("order", "vf.harness.c03_tree", "h_order", n_cubes, timeout={"quick": 200, "thorough": 900},
-          bounds={"quick": "3 entries (nested and non-ASCII keys), symbolic insertion permutation, hash values arbitrary strings (len<=1), Meta fields symbolic",
+          bounds={"quick": "3 entries (two keys differing only by case, a nested key with a decomposed (NFD) e-acute; its composed twin is the 4th key), symbolic insertion permutation, hash values arbitrary strings (len<=1), Meta fields symbolic",
                   "thorough": "4 entries (24 permutations)"},
           smoke=[{"args": dict(perm=3, v0="a", v1="b", v2="a", v3="", s0=1, s1=2, x0=True, x1=True, m0="q"), "cube": {"n": 3}}],
           encodes="Tree.add, Tree.as_list (sorting, with_meta=False), HashInfo.to_dict"),
